@@ -24,7 +24,7 @@ class Unsupported(Exception):
 
 
 # ----------------------------------------------------------------------------- tokenizer / parser
-TOK = re.compile(r"\s*(?:(\d[\d_]*(?:u\d+|i\d+|usize)?)|([A-Za-z_][A-Za-z0-9_]*)|(::|->|=>|==|!=|&&|\|\||[-+*/&|!.,;:(){}\[\]<>=#']))")
+TOK = re.compile(r"\s*(?:(\d[\d_]*(?:u\d+|i\d+|usize)?)|([A-Za-z_][A-Za-z0-9_]*)|(::|->|=>|==|!=|&&|\|\||[-+*/&|!.,;:(){}\[\]<>=#'])|(\"(?:[^\"\\\\]|\\\\.)*\"))")
 
 
 def tokenize(src):
@@ -42,8 +42,10 @@ def tokenize(src):
             toks.append(("num", m.group(1)))
         elif m.group(2):
             toks.append(("id", m.group(2)))
-        else:
+        elif m.group(3):
             toks.append(("p", m.group(3)))
+        else:
+            toks.append(("str", m.group(4)[1:-1]))
         i = m.end()
     return toks
 
@@ -187,6 +189,18 @@ class Parser:
         tok = self.next()
         if tok[0] == "num":
             return ("num", int(re.sub(r"(u\d+|i\d+|usize)$", "", tok[1].replace("_", ""))))
+        if tok[0] == "str":
+            return ("str", tok[1])
+        if tok == ("id", "vec") and self.at("!"):
+            self.next()
+            self.expect("[")
+            items = []
+            while not self.at("]"):
+                items.append(self.expr())
+                if self.at(","):
+                    self.next()
+            self.next()
+            return ("tuple", items)
         if tok[1] == "(" and tok[0] == "p":
             items = []
             trailing = False
@@ -367,6 +381,8 @@ def ev(env, e, loc):
     k = e[0]
     if k == "num":
         return sp.Integer(e[1])
+    if k == "str":
+        return e[1]
     if k == "path":
         p = tuple(e[1])
         if len(p) == 1 and p[0] in loc:
